@@ -10,6 +10,10 @@ import (
 	sdk "github.com/cosmos/cosmos-sdk/types"
 	clienttypes "github.com/cosmos/ibc-go/v8/modules/core/02-client/types"
 	channeltypes "github.com/cosmos/ibc-go/v8/modules/core/04-channel/types"
+	porttypes "github.com/cosmos/ibc-go/v8/modules/core/05-port/types"
+	ibcexported "github.com/cosmos/ibc-go/v8/modules/core/exported"
+
+	"github.com/noble-assets/orbiter/v2/entrypoint"
 
 	"orbverif/fw"
 	"orbverif/run"
@@ -33,7 +37,7 @@ func hostileMemos(l *Lab, r interface{ Intn(int) int }) []string {
 	m := []string{"", "{}", "not json", `{"forward":{"receiver":"x","port":"transfer","channel":"channel-0"}}`, `{"wasm":{}}`,
 		tpls[0].Spec.Memo(), tpls[1].Spec.Memo(), tpls[2].Spec.Memo(),
 		`{"orbiter":null}`, `{"orbiter":{}}`, `{"orbiter":` + strings.Repeat("[", 2000) + strings.Repeat("]", 2000) + `}`,
-		strings.Repeat("m", 32000), `{"orbiter":{"pre_actions":[null]}}`, "\x00\x01", `{"orbiter":{"forwarding":{"protocol_id":99}}}`}
+		strings.Repeat("m", 32000), strings.Repeat("m", 32768), strings.Repeat("m", 32769), strings.Repeat("m", 70000), `{"orbiter":{"pre_actions":[null]}}`, "\x00\x01", `{"orbiter":{"forwarding":{"protocol_id":99}}}`}
 	return m
 }
 
@@ -344,12 +348,9 @@ func CheckC07(e *fw.Env, l *Lab) {
 		default:
 			ri, mi := e.R.Intn(len(recvs)), e.R.Intn(len(memos))
 			dataCls = fmt.Sprintf("recv%d|memo%d", ri, mi)
-			recvs[0], recvs[ri] = recvs[ri], recvs[0]
-			memos[0], memos[mi] = memos[mi], memos[0]
-			defer func() {}()
 			denoms := []string{world.Port + "/" + pair.B + "/" + world.USDC, world.Port + "/" + pair.B + "/" + world.USDN, "uforeign", "", "transfer/channel-9/uusdc"}
 			amounts := []string{"1000", "1", "0", "-1", "abc", "99999999999999999999999999"}
-			data = world.ICS20(denoms[e.R.Intn(len(denoms))], amounts[e.R.Intn(len(amounts))], w.K("bob").String(), recvs[0], memos[0])
+			data = world.ICS20(denoms[e.R.Intn(len(denoms))], amounts[e.R.Intn(len(amounts))], w.K("bob").String(), recvs[ri], memos[mi])
 		}
 		t := run.Transfer{RawData: data}
 		if IsOrbiterReceiver(t.EffectiveReceiver()) {
@@ -390,7 +391,68 @@ func CheckC07(e *fw.Env, l *Lab) {
 		}
 		e.Res.Sig("modeC|%s|%s|%s", envClass(sp, sc, dc), ackClass(r2), dataCls)
 	}
+	// 3. another wrapped application: one that acknowledges asynchronously (returns nil and writes
+	// the acknowledgement later, as packet-forward-middleware does), successfully, or with an
+	// error, and that writes state and emits events whatever it answers. The middleware must hand
+	// through exactly what it returns.
+	stub := stubApp{IBCModule: bare, w: w}
+	orbStub := entrypoint.NewIBCMiddleware(stub, w.App.IBCKeeper.ChannelKeeper, w.App.OrbiterKeeper.Adapter())
+	for i := 0; i < e.N(600, 20000); i++ {
+		pair := w.Channels[e.R.Intn(len(w.Channels))]
+		ri, mi := e.R.Intn(len(recvs)), e.R.Intn(len(memos))
+		data := world.ICS20(world.Port+"/"+pair.B+"/"+world.USDC, "1000", w.K("bob").String(), recvs[ri], memos[mi])
+		if e.R.Intn(8) == 0 {
+			data = make([]byte, e.R.Intn(200))
+			e.R.Read(data)
+		}
+		if IsOrbiterReceiver((run.Transfer{RawData: data}).EffectiveReceiver()) {
+			continue
+		}
+		pkt := channeltypes.NewPacket(data, uint64(1+e.R.Intn(3000)), world.Port, pair.B, world.Port, pair.A, w.FarTimeout(), 0)
+		e.Log(map[string]any{"stub_packet_data": data, "seq": pkt.Sequence})
+		c1, _ := l.Base.CacheContext()
+		c2, _ := l.Base.CacheContext()
+		r1 := w.RecvC(c1, orbStub, pkt)
+		r2 := w.RecvC(c2, stub, pkt)
+		e.Res.Eval()
+		wtn := map[string]any{"packet_data": trunc(string(data), 600), "wrapped_application_answers": []string{"nil (asynchronous)", "success", "error"}[pkt.Sequence%3],
+			"with_middleware": r1.String(), "without": r2.String()}
+		switch {
+		case r1.Panic != nil:
+			e.Res.Violate(fw.Violation{Property: "C07", Kind: "middleware-changes-outcome", Tags: map[string]string{"wrapped": "stub"}, Detail: fmt.Sprintf("panic only with the middleware: %v", r1.Panic), Witness: wtn})
+		case string(r1.Ack) != string(r2.Ack) || (r1.Ack == nil) != (r2.Ack == nil):
+			e.Res.Violate(fw.Violation{Property: "C07", Kind: "middleware-changes-acknowledgement", Tags: map[string]string{"wrapped": "stub"},
+				Detail: fmt.Sprintf("with middleware %q, without %q", trunc(string(r1.Ack), 300), trunc(string(r2.Ack), 300)), Witness: wtn})
+		case renderEvents(r1.Events) != renderEvents(r2.Events):
+			e.Res.Violate(fw.Violation{Property: "C07", Kind: "middleware-changes-events", Tags: map[string]string{"wrapped": "stub"}, Detail: firstDiffLine(renderEvents(r1.Events), renderEvents(r2.Events)), Witness: wtn})
+		default:
+			if diff := world.DigestDiff(w.StoreDigest(c1), w.StoreDigest(c2)); len(diff) != 0 {
+				e.Res.Violate(fw.Violation{Property: "C07", Kind: "middleware-changes-state", Tags: map[string]string{"wrapped": "stub"}, Detail: fmt.Sprintf("stores differing: %v", diff), Witness: wtn})
+			}
+		}
+		e.Res.Sig("stub|answer=%d|recv%d|memo%d|%s", pkt.Sequence%3, ri, mi, ackClass(r2))
+	}
 	_ = spec.Spec{}
+}
+
+// stubApp is a wrapped application other than ICS-20: it records the packet in the bank module's
+// store (a send of 1 uusdc between two fixed accounts), emits an event, and answers nil
+// (asynchronous acknowledgement), success or error depending on the packet sequence.
+type stubApp struct {
+	porttypes.IBCModule
+	w *world.World
+}
+
+func (s stubApp) OnRecvPacket(ctx sdk.Context, p channeltypes.Packet, _ sdk.AccAddress) ibcexported.Acknowledgement {
+	_ = s.w.App.BankKeeper.SendCoins(ctx, s.w.K("carol").Addr, s.w.K("dave").Addr, sdk.NewCoins(sdk.NewInt64Coin(world.USDC, 1)))
+	ctx.EventManager().EmitEvent(sdk.NewEvent("stub_recv", sdk.NewAttribute("sequence", fmt.Sprint(p.Sequence)), sdk.NewAttribute("len", fmt.Sprint(len(p.Data)))))
+	switch p.Sequence % 3 {
+	case 0:
+		return nil
+	case 1:
+		return channeltypes.NewResultAcknowledgement([]byte{1})
+	}
+	return channeltypes.NewErrorAcknowledgement(fmt.Errorf("stub refuses packet %d", p.Sequence))
 }
 
 func envClass(sp, sc, dc string) string {
